@@ -204,6 +204,9 @@ def classify_text(m, m2, tmpl, ev, beautify):
                         tv = tmpl.get_block(bname).get_variable(vname)
                         if beautify and ser is not None and isinstance(val, int) and val < 0 and c12.tyname(tv) in ("S8", "S16", "S32"):
                             classes.add("signed-flag-field")
+                        elif beautify and ser is not None and isinstance(val, (bytes, bytearray)):
+                            # the value was pretty-printed and its own subfield serializer does not give the bytes back
+                            classes.add("pretty-subfield-lossy@%s.%s.%s" % (m.name, bname, vname))
                         else:
                             classes.add("other")
     return classes or {"other"}
@@ -400,8 +403,11 @@ def _texts(chk: Check, per_template, n_fuzz):
             continue
         ev = evs[0]
         for cls in info["cls"] or ["other"]:
-            chk.violation("human text round trip (%s): %s" % ("beautified" if info["beautify"] else "plain", cls),
-                          {"kind": "human-text", "class": cls, "beautify": info["beautify"]},
+            cls, _, field = cls.partition("@")
+            feats = {"kind": "human-text", "class": cls, "beautify": info["beautify"]}
+            if field:
+                feats["field"] = field
+            chk.violation("human text round trip (%s): %s" % ("beautified" if info["beautify"] else "plain", cls), feats,
                           {"message": tmpls[ti].name, "failed_clauses": sorted(clauses), "outcome": ev["outcome"], "text": info["text"],
                            "style": info["style"], "replacements": info["repl"]})
     ex = next((r for r in res if not r[3].get("fuzz") and any(t["pk"] for t in r[2][0]["toks"])), res[0])
